@@ -465,3 +465,34 @@ pub fn send_write_chunks_native(credit: u8, chunk: u8, n: u8) -> u32 {
     assert!(accepted == offered.min(credit as usize), "write must accept exactly the available credit: {} of {} offered, credit {}", accepted, offered, credit);
     1
 }
+
+/// Native replay body for `recv_stop` (C06), and demonstration for finding 17 - the mirror image of
+/// `stop_then_reset_credit_native`: `buffered` bytes have been received but not read, the peer RESETs the
+/// stream at final size `buffered + extra` (the whole final size is credited back at that point, the data
+/// being discarded), and THEN the application - which has not looked at the stream since - stops it.  The
+/// connection-level credit handed to the peer must again be exactly the configured window.
+pub fn reset_then_stop_credit_native(buffered: u8, extra: u8) -> u32 {
+    use super::state::verif::{mk_streams, Scalars};
+    let mut st = mk_streams(&Scalars {
+        server: true, max_remote: [4, 4], sent_max_remote: [4, 4], allocated_remote_count: [4, 4], max_concurrent_remote_count: [4, 4],
+        receive_window: 1000, local_max_data: 1000, sent_max_data: 1000, stream_receive_window: 1 << 16, ..Default::default()
+    });
+    let mut pending = Retransmits::default();
+    let id = StreamId::new(crate::Side::Client, Dir::Uni, 0);
+    st.insert(true, id);
+    static DATA: [u8; 255] = [7; 255];
+    if buffered > 0 {
+        st.received(frame::Stream { id, offset: 0, fin: false, data: Bytes::from_static(&DATA[..buffered as usize]) }, buffered as usize).unwrap();
+    }
+    let fin = buffered as u32 + extra as u32;
+    st.received_reset(frame::ResetStream { id, error_code: VarInt::from_u32(3), final_offset: VarInt::from_u32(fin) }).unwrap();
+    let after_reset = super::state::verif::peek_credit(&st);
+    assert!(after_reset == 1000, "credit after the reset is {}", after_reset);
+    {
+        let mut rs = RecvStream { id, state: &mut st, pending: &mut pending };
+        let _ = rs.stop(VarInt::from_u32(1));
+    }
+    let credit = super::state::verif::peek_credit(&st);
+    assert!(credit == 1000, "connection-level credit after reset + stop is {} for a 1000-byte window: the unread bytes were credited twice", credit);
+    1
+}
